@@ -669,6 +669,31 @@ class Fn:
                     heads.append(c.bb)
         return heads
 
+    def natural_loop_heads(self, b):
+        """headers of the natural loops that contain b (any loop form, not only iterator loops): for a back edge u -> h (h dominates u) the loop
+        is h plus every block that reaches u without passing through h"""
+        n = len(self.succ)
+        pred = [[] for _ in range(n)]
+        for u in range(n):
+            for v in self.succ[u]:
+                pred[v].append(u)
+        out = []
+        for u in range(n):
+            for h in self.succ[u]:
+                if h not in self.dom[u]:
+                    continue
+                body = {h, u}
+                work = [u] if u != h else []
+                while work:
+                    x = work.pop()
+                    for y in pred[x]:
+                        if y not in body:
+                            body.add(y)
+                            work.append(y)
+                if b in body and h not in out:
+                    out.append(h)
+        return sorted(out)
+
     def filters_in_iteration(self, effect):
         """filter_branches restricted to one iteration of the innermost loop around `effect` (or the whole body if none)"""
         heads = self.enclosing_loop_heads(effect)
